@@ -1,5 +1,7 @@
 pub mod c01;
 pub mod c03;
+pub mod c04;
+pub mod c06;
 pub mod c10;
 
 use crate::runner::Ctx;
@@ -9,6 +11,8 @@ pub fn run(ctx: &mut Ctx, id: &str) -> bool {
     match id {
         "C01" => c01::run(ctx),
         "C03" => c03::run_c03(ctx),
+        "C04" => c04::run(ctx),
+        "C06" => c06::run(ctx),
         "C09" => c03::run_c09(ctx),
         "C10" => c10::run(ctx),
         _ => return false,
@@ -20,6 +24,8 @@ pub fn replay(ctx: &Ctx, id: &str, label: &str, case: Value) -> Result<(), Strin
     match id {
         "C01" => c01::replay(ctx, label, case),
         "C03" => c03::replay(ctx, label, case, c03::Side::Acyclic),
+        "C04" => c04::replay(ctx, label, case),
+        "C06" => c06::replay(ctx, label, case),
         "C09" => c03::replay(ctx, label, case, c03::Side::Cyclic),
         "C10" => c10::replay(ctx, label, case),
         _ => Err(format!("unknown property {}", id)),
